@@ -59,6 +59,10 @@ def rand_outcomes(rnd, k, kind=None):
         return rnd.sample([False, True], min(k, 2))
     if kind == "float":
         return [float(x) for x in rnd.sample(range(-2, max(6, k)), k)]
+    if kind == "dec":
+        import decimal
+
+        return [decimal.Decimal(x) for x in rnd.sample(range(-5, max(6, k)), k)]
     raise ValueError(kind)
 
 
@@ -95,6 +99,13 @@ def rand_pool(rnd, max_dice=4, max_faces=4, kind=None):
         hs.append(rand_h(rnd, max_faces, kind))
     if rnd.random() < 0.25 and hs and len(hs) < max_dice + 1:
         hs.append(scale_h(rnd.choice(hs), rnd.choice([2, 3])))  # proportional twin
+    if rnd.random() < 0.15 and hs:
+        # same faces, same total, other weights: a different die that many coarse keys cannot tell apart
+        h = rnd.choice(hs)
+        cs = [c for _, c in h]
+        if len(set(cs)) > 1:
+            cs2 = cs[1:] + cs[:1]
+            hs.append([[o, c] for (o, _), c in zip(h, cs2)])
     if rnd.random() < 0.1 and hs:
         hs.append(catalogue()[rnd.choice([7, 8, 9, 10])])  # zero-count catalogue entries
     rnd.shuffle(hs)
